@@ -9,7 +9,7 @@ package and compares step by step.  RegistRace.tla models two concurrent Regist 
 the hook points; its schedules are replayed through the gate scheduler on media.Regist and on two
 concurrent media.GetOrCreate calls (fake pull factory), and TLC validates the final observations.
 """
-import json, os, random
+import json, random, os, random
 from vlib import Infra
 LEVEL = "model_checking"
 
@@ -39,6 +39,19 @@ def registry_histories(ck, prop, q, kinds=None, edge_sample=2500):
         edges = taken
     rs = ck.tlc("registry", "Registry", "RegSim.cfg", simulate="num=%d" % (30 if q else 400), depth=16, timeout=900, label="registry: simulated long histories")
     sims = rs.printed("@H")
+    # three generations of one path (a path taken over twice while the displaced streams still have consumers)
+    rg = ck.tlc("registry", "Registry", "RegClassGen.cfg", workers=1, timeout=1800, label="registry: three generations of one path, first history per class of step (operation x every stream's status / consumers / mapping)")
+    ck.model(rg)
+    gen = rg.printed("@H")
+    if len(gen) < 1000:
+        raise Infra("three-generation cover produced %d histories" % len(gen))
+    if q:  # every shutdown / unregist / close class, a seeded sample of the rest
+        keep = [h for h in gen if h["hist"][-1]["op"] in ("shutdown", "unregist", "close")]
+        rest = [h for h in gen if h["hist"][-1]["op"] not in ("shutdown", "unregist", "close")]
+        rnd2 = random.Random(ck.seed + 5)
+        rnd2.shuffle(rest)
+        gen = keep + rest[:300]
+    sims += gen
     if len(rows) < 50 or len(edges) < 500 or len(sims) < 5:
         raise Infra("generation produced %d/%d/%d histories" % (len(rows), len(edges), len(sims)))
     allh = rows + edges + sims
